@@ -59,6 +59,8 @@ func runModeCtx(m string, mc *modeCtx) []*checkItem {
 		return modeMonitorFrame(mc)
 	case "args.frame":
 		return modeArgsFrame(mc)
+	case "field.writers":
+		return modeFieldWriters(mc)
 	}
 	return []*checkItem{{Name: "mode/" + m, Kind: "mode", Text: "unknown mode", Status: "error"}}
 }
@@ -907,5 +909,97 @@ func modeSizesUnread(mc *modeCtx) []*checkItem {
 	if len(items) == 0 {
 		items = append(items, okItem("sizes.unread", "frame", fmt.Sprintf("%d functions of phases 1-3, component splitting and pre/post-processing: no read of a size, coordinate or spacing", n)))
 	}
+	return items
+}
+
+// ---------------------------------------------------------------------------
+// field.writers: a representation invariant that ties several fields together (an edge's ends and its reversed flag
+// change only together, inside Edge.Reverse, whose contract says how) holds as long as nothing else assigns those
+// fields. The mode lists every assignment to the configured fields in non-test code and fails on any function that is
+// not on the reviewed list. Composite literals build fresh objects and are not assignments.
+func modeFieldWriters(mc *modeCtx) []*checkItem {
+	var items []*checkItem
+	if len(mc.pc.FieldWriters) == 0 {
+		return []*checkItem{{Name: "field.writers/config", Kind: "mode", Text: "no fields configured", Status: "error"}}
+	}
+	allowed := map[string]map[string]bool{}
+	for f, ws := range mc.pc.FieldWriters {
+		allowed[f] = map[string]bool{}
+		for _, w := range ws {
+			allowed[f][w] = true
+		}
+	}
+	seen := map[string]bool{}
+	for _, k := range mc.pr.FuncKeys {
+		fi := mc.pr.Funcs[k]
+		info := fi.Pkg.TypesInfo
+		check := func(lhs ast.Expr, pos token.Pos) {
+			se, ok := ast.Unparen(lhs).(*ast.SelectorExpr)
+			if !ok {
+				return
+			}
+			sel, ok := info.Selections[se]
+			if !ok || sel.Kind() != types.FieldVal {
+				return
+			}
+			fv, ok := sel.Obj().(*types.Var)
+			if !ok || fv.Pkg() == nil {
+				return
+			}
+			// owner: the struct type that declares the field
+			owner := ""
+			recv := sel.Recv()
+			for _, idx := range sel.Index() {
+				if p, ok := types.Unalias(recv).Underlying().(*types.Pointer); ok {
+					recv = p.Elem()
+				}
+				st, ok := types.Unalias(recv).Underlying().(*types.Struct)
+				if !ok {
+					break
+				}
+				owner = typeName(recv)
+				recv = st.Field(idx).Type()
+			}
+			name := owner + "." + fv.Name()
+			if _, watched := allowed[name]; !watched {
+				return
+			}
+			id := "field.writers/" + name + "/" + fi.Key
+			if seen[id] {
+				return
+			}
+			seen[id] = true
+			it := &checkItem{Name: id, Kind: "mode", Func: fi.Key, Pos: fmt.Sprintf("%s:%d", shortFile(mc.pr.Fset.Position(pos).Filename), mc.pr.Fset.Position(pos).Line)}
+			if allowed[name][fi.Key] {
+				it.Status, it.Text = "ok", "reviewed writer of "+name
+			} else {
+				it.Status, it.Text = "fail", fi.Key+" assigns "+name+", which only the reviewed writers may change (the field is tied to others by an invariant that Edge.Reverse's contract maintains)"
+			}
+			items = append(items, it)
+		}
+		ast.Inspect(fi.Decl, func(n ast.Node) bool {
+			switch n := n.(type) {
+			case *ast.AssignStmt:
+				for _, l := range n.Lhs {
+					check(l, n.Pos())
+				}
+			case *ast.IncDecStmt:
+				check(n.X, n.Pos())
+			case *ast.UnaryExpr:
+				if n.Op == token.AND {
+					check(n.X, n.Pos())
+				}
+			}
+			return true
+		})
+	}
+	for f, ws := range mc.pc.FieldWriters {
+		for _, w := range ws {
+			if !seen["field.writers/"+f+"/"+w] {
+				items = append(items, &checkItem{Name: "field.writers/" + f + "/" + w, Kind: "mode", Status: "ok", Text: "reviewed writer no longer assigns the field (list can be shortened)"})
+			}
+		}
+	}
+	sort.Slice(items, func(i, j int) bool { return items[i].Name < items[j].Name })
 	return items
 }
